@@ -27,7 +27,7 @@ class Prop(BaseProp):
             "BaseWallet address methods and uncompressed P2PKH; each address decoded in Coq (Base58Check / segwit) and compared with the Spec "
             "payload built from HASH160/SHA-256 of the compressed key or of the standard script. Rmd: ripemd160 on every length 0..1024 (thorough; "
             "quick: 0..200 and the 55/56/63/64/119/120/127/128 neighbourhoods) against the Coq model and OpenSSL's ripemd160 when available. "
-            "Scr: the four builders on random 20/32-byte hashes. Non-trivial = distinct (case, output).")
+            "Scr: the four builders on random 20/32-byte hashes, serialised at once and after the builders were used for other hashes (objects retained). Non-trivial = distinct (case, output).")
     extra_trusted = ["Exec/Secp256k1.v executable curve (evaluation only)", "OpenSSL ripemd160 (hashlib.new) as an independent reference in the correspondence run"]
 
     def gen_cases(self, rng, tier):
@@ -70,6 +70,8 @@ class Prop(BaseProp):
             cases.append({"kind": "H160", "data": bytes(rng.randrange(256) for _ in range(n)).hex()})
         for n in (20, 32, 20, 32, 0, 21, 33):
             cases.append({"kind": "Scr", "h": bytes(rng.randrange(256) for _ in range(n)).hex()})
+        for n in (20, 32, 20):
+            cases.append({"kind": "Scr", "h": bytes(rng.randrange(256) for _ in range(n)).hex(), "retained": True})
         return cases
 
     def run_impl(self, case):
@@ -131,6 +133,26 @@ class Prop(BaseProp):
             from btc_hd_wallet.script import p2pkh_script, p2sh_script, p2wpkh_script, p2wsh_script
             h = bytes.fromhex(case["h"])
             out = []
+            if case.get("retained"):
+                # the Script objects are kept while the same builders are used for other hashes, and serialised afterwards
+                objs = []
+                for f in (p2pkh_script, p2sh_script, p2wpkh_script, p2wsh_script):
+                    try:
+                        objs.append(f(h))
+                    except Exception:
+                        objs.append(None)
+                for f in (p2pkh_script, p2sh_script, p2wpkh_script, p2wsh_script):
+                    for other in (bytes(reversed(h)), bytes((x + 1) % 256 for x in h), b"\x11" * len(h)):
+                        try:
+                            f(other).raw_serialize()
+                        except Exception:
+                            pass
+                for o in objs:
+                    try:
+                        out.append(o.raw_serialize().hex())
+                    except Exception:
+                        out.append(None)
+                return {"ob": out, "err": False}
             for f in (p2pkh_script, p2sh_script, p2wpkh_script, p2wsh_script):
                 try:
                     out.append(f(h).raw_serialize().hex())
